@@ -1167,6 +1167,16 @@ def count_obligations(gen):
                 obs.append((r['name'], lab))
                 n += 1
         obs.append((r['name'], r['name'] + '.body-safety'))
+    if not obs:
+        # lemma-only unit: every verified (non external_body) proof fn is an obligation
+        lines = gen['text'].split('\n')
+        for n, l in enumerate(lines):
+            m = re.match(r'\s*(?:pub\s+)?(?:broadcast\s+)?proof fn ([A-Za-z0-9_]+)', l)
+            if m:
+                prev = ' '.join(x.strip() for x in lines[max(0, n - 3):n])
+                if 'external_body' in prev:
+                    continue
+                obs.append((m.group(1), 'lemma.' + m.group(1)))
     return obs
 
 
